@@ -44,26 +44,30 @@ def scratch(prefix='vp'):
     return tempfile.mkdtemp(prefix=prefix + '-', dir=base)
 
 
-def native_truth(family, bounds, horizon, extra=()):
+def native_truth(family, bounds, horizon, extra=(), gen_args=(), nshards=None):
     """Returns {idx: result} of the exhaustive native exploration of every program of the family; cached on the
     content hash of the generated native module (depends on the generator and stubs, not on /repo)."""
-    h = vp('gen-native', '-family', family, '-bounds', bounds, '-hash').stdout.split()
+    h = vp('gen-native', '-family', family, '-bounds', bounds, '-hash', *gen_args).stdout.split()
     hsh, n = h[0], int(h[1])
     cache = f'{V}/build/truth/{family}-{hsh}-h{horizon}{"-" + "-".join(extra) if extra else ""}.jsonl'
     if not os.path.exists(cache):
         os.makedirs(os.path.dirname(cache), exist_ok=True)
         d = scratch('native')
         try:
-            vp('gen-native', '-family', family, '-bounds', bounds, '-out', d)
+            vp('gen-native', '-family', family, '-bounds', bounds, '-out', d, *gen_args)
             r = subprocess.run(['go', 'build', '-o', 'native', '.'], cwd=d, env=GOENV, capture_output=True, text=True)
             if r.returncode != 0:
                 tool_error('native build failed (generator bug):\n' + r.stderr[-4000:])
 
+            ns = nshards or NPROC
+
             def shard(i):
-                return subprocess.run([f'{d}/native', f'{i}/{NPROC}', str(horizon), *extra], capture_output=True, text=True,
-                                      timeout=3600)
-            with cf.ThreadPoolExecutor(NPROC) as ex:
-                outs = list(ex.map(shard, range(NPROC)))
+                wd = f'{d}/wd{i}'
+                os.makedirs(wd, exist_ok=True)
+                return subprocess.run([f'{d}/native', f'{i}/{ns}', str(horizon), *extra], capture_output=True, text=True,
+                                      timeout=3600, cwd=wd)
+            with cf.ThreadPoolExecutor(ns) as ex:
+                outs = list(ex.map(shard, range(ns)))
             for o in outs:
                 if o.returncode != 0:
                     tool_error('native run failed: ' + o.stderr[-2000:])
@@ -76,7 +80,7 @@ def native_truth(family, bounds, horizon, extra=()):
     res = {}
     for l in open(cache):
         r = json.loads(l)
-        res[int(r['Name'])] = r
+        res[int(r['Name']) if r['Name'].isdigit() else r['Name']] = r
     if len(res) != n:
         os.remove(cache)
         tool_error(f'native truth incomplete: {len(res)} of {n}')
